@@ -22,6 +22,9 @@ func init() {
 		},
 		Run: runC36,
 		Controls: []Control{
+			{Name: "route-filter-equality-by-base-address", File: "routingtable/filter/route_filter.go", Old: "\tif f.pattern != x.pattern {\n", New: "\tif f.pattern != x.pattern && f.pattern.BaseAddr() != x.pattern.BaseAddr() {\n", Expect: "chain-equality-is-not-coarser"},
+			{Name: "range-matcher-differs-only-if-both-bounds-differ", File: "routingtable/filter/prefix_matcher.go", Old: "\tif i.min != y.min || i.max != y.max {\n", New: "\tif i.min != y.min && i.max != y.max {\n", Expect: "chain-equality-is-not-coarser"},
+			{Name: "replace-session-arguments-swapped", File: "cmd/bio-rd/bgp.go", Old: "func (c *bgpConfigurator) replaceSession(newCfg, oldCfg *bgpserver.PeerConfig) error {", New: "func (c *bgpConfigurator) replaceSession(oldCfg, newCfg *bgpserver.PeerConfig) error {", Expect: "added-peer-comes-from-new-configuration"},
 			{Name: "addpath-options-compared-by-mode-only", File: "protocols/bgp/server/peer.go", Old: "\tif a.AddPathSend != x.AddPathSend {\n\t\treturn true\n\t}\n", New: "\tif a.AddPathSend.BestOnly != x.AddPathSend.BestOnly {\n\t\treturn true\n\t}\n", Expect: "restart-covers-session-settings"},
 			{Name: "ttl-not-compared", File: "protocols/bgp/server/peer.go", Old: "\tif pc.TTL != x.TTL {\n\t\treturn true\n\t}\n\n", New: "", Expect: "restart-covers-session-settings"},
 			{Name: "address-families-not-compared", File: "protocols/bgp/server/peer.go", Old: "\tif pc.IPv4.needsRestart(x.IPv4) || pc.IPv6.needsRestart(x.IPv6) {\n\t\treturn true\n\t}\n", New: "", Expect: "restart-covers-session-settings"},
@@ -34,6 +37,8 @@ func init() {
 }
 
 func runC36(c *core.Ctx) {
+	addedPeerComesFromNewConfiguration(c)
+	chainEqualityIsNotCoarser(c)
 	p := c.P
 	newPeer := c.MustFunc(srv + ".newPeer")
 	needs := c.MustFunc(srv + ".(*PeerConfig).NeedsRestart")
